@@ -338,6 +338,9 @@ def run(ctx, chk):
              'epilogue stores; prologue pushes mirror epilogue pops', floor=14)
     chk.rule('C01.9', 'D', 'encode_op produces exactly one code sequence for every defined encoding and diverges for '
              'Invalid', floor=500)
+    chk.rule('C01.11', 'D', 'translation is total: every slice translate_code_block hands to decode() - for a block start '
+             'accepted by can_dynarec and for every index the loop can reach - is at least as long as the longest '
+             'instruction (no out-of-bounds index / host panic for an instruction at the end of a ROM bank)', floor=2)
     chk.rule('C01.10', 'D', 'value level, all operands at once: the emitted x86-64 bytes of every encoding, abstractly '
              'executed from the documented register assignment, leave every bit of EAX/EBX/EDX/ECX (AF BC DE HL), SP and PC '
              '(mod 2^16) equal to the interpreter, perform the same byte accesses (kind, address, value, order) through '
@@ -547,6 +550,7 @@ def run(ctx, chk):
         chk.rules['C01.5']['instances'] += len(lst) - 1
         chk.rules['C01.5']['failures'] += len(lst) - 1
     check_layout(ctx, chk, prog, facts)
+    decoder_window(ctx, chk, prog, facts)
     from .. import jitsem
     jitsem.apply_rule(ctx, chk, 'C01.10', lambda c: c != 'cycles')
     jitsem.suppress_subsumed(ctx, chk, ('C01.1', 'C01.2', 'C01.3', 'C01.5', 'C01.6', 'C01.7'))
@@ -777,3 +781,164 @@ def check_layout(ctx, chk, prog, facts):
     else:
         chk.fail('C01.8', 'callee-saved', 'prologue pushes host registers %s, epilogue pops %s (not mirror images)'
                  % (saved, restored), file, pline)
+
+
+# ---------------------------------------------------------------------------------------------------------------
+# C01.11 - the translator hands the decoder enough bytes
+
+TCB = 'cache::CodeCache::translate_code_block'
+SEG = 'cache::CodeCache::get_executable_memory_segment'
+CDY = 'mem::can_dynarec'
+
+
+def decoder_window(ctx, chk, prog, facts):
+    """Every slice translate_code_block passes to decode() must be at least as long as the longest instruction (the
+    decoder indexes operand bytes unconditionally).  The index of the first iteration is the block start, which
+    Core::run_code_block only hands over when can_dynarec(ip); later iterations have passed the loop's own exits.
+    For both index sets the length of get_executable_memory_segment(index) is computed as a term and compared with the
+    window bit-precisely (ROBDD), so masks like (addr & 0x3fff) < 0x3ffe are understood exactly."""
+    from ..bdd import BDD, BV, TermBV, Unsupported
+    from .. import valsem
+    if not need(chk, prog, [TCB, SEG, CDY, 'decoder::decode']):
+        return
+    sp = ctx.opspec('jit')
+    window = 0
+    for enc in osp.all_encodings():
+        try:
+            _, ln, _ = sp.decoded(enc)
+        except absint.Abort:
+            continue
+        window = max(window, ln or 0)
+    if window < 1:
+        chk.error('cannot derive the decoder window')
+        return
+    file = 'src/cache/mod.rs'
+
+    def seg_short(env, idx, what, key):
+        """run SEG from `env` with index term idx; report inputs for which the returned slice is shorter than window"""
+        # slice bounds against the ROM length are C11's obligation (with the header invariants); here only the length
+        # of the returned view matters
+        ip = absint.Interp(facts, trust_asserts=('overflow', 'bounds', 'slice_index'), sym_facts=env.sym_facts,
+                           opaque=['mem::MemoryAreas::get_rom_bank'])
+        st = ip.new_state()
+        st.env = env.copy()
+        cache = ip.arg_object(st, 'cache')
+        rs = ip.run(SEG, [cache, idx, S(0, 'mem')], st)
+        m = BDD()
+        conv = TermBV(m)
+        bad = None
+        n_ok = 0
+        try:
+            for r in rs:
+                K = 1
+                for kind, t, v in r.state.env.log:
+                    if not (isinstance(t, tuple) and t and t[0] in ('c', 's', 'o') and t[1]):
+                        continue
+                    # a conjunct whose canonical form is large (bounds assumptions relating a shifted bank number to
+                    # a length) is dropped: a weaker K can only make the obligation harder to discharge
+                    m.limit = len(m.node) + 60000
+                    try:
+                        e = conv(t).eq(v)
+                        K2 = m.AND(K, e if kind == 'eq' else m.NOT(e))
+                    except Unsupported:
+                        conv.memo.pop(t, None)
+                        continue
+                    finally:
+                        m.limit = 3000000
+                    K = K2
+                for t, av in r.state.env.ref.items():
+                    if t[0] == 's' and t[1]:
+                        x = conv(t)
+                        if av.lo > 0:
+                            K = m.AND(K, m.NOT(x.ult(BV.const(m, len(x), av.lo))))
+                        if av.hi < (1 << len(x)) - 1:
+                            K = m.AND(K, x.ule(BV.const(m, len(x), av.hi)))
+                if K == 0:
+                    continue
+                if r.status != 'ok':
+                    # e.g. the panic arm for addresses outside ROM, or a failing slice bound
+                    w = m.witness(K)
+                    bad = bad or ('%s: get_executable_memory_segment does not return (%s) for index %#x'
+                                  % (what, str(r.detail)[:50], valsem.eval_bv(m, conv(idx), w)))
+                    continue
+                if r.ret is None or r.ret[0] != 'slice':
+                    chk.error('C01.11: get_executable_memory_segment does not return a slice view')
+                    return
+                n_ok += 1
+                ln = conv(r.ret[4])
+                D = m.AND(K, ln.ult(BV.const(m, len(ln), window)))
+                if D != 0:
+                    w = m.witness(D)
+                    bad = bad or ('%s: decode() receives a slice of %d byte(s) for index %#x but reads up to %d '
+                                  '(instruction straddling the end of the ROM bank: index out of bounds, host panic)'
+                                  % (what, valsem.eval_bv(m, ln, w), valsem.eval_bv(m, conv(idx), w), window))
+        except Unsupported as e:
+            chk.error('C01.11 %s: outside the bit-vector fragment: %s' % (key, e.why))
+            return
+        if bad:
+            chk.fail('C01.11', key, bad, file, prog.fns[TCB]['line'])
+        elif not n_ok:
+            chk.error('C01.11 %s: no completing path of get_executable_memory_segment' % key)
+        else:
+            chk.ok('C01.11', key, sample={'index set': what, 'decoder window': window, 'segment paths': n_ok})
+
+    # (a) first iteration: index = ip with can_dynarec(ip)
+    ipv = S(64, 'ip')
+    ipc = absint.Interp(facts)
+    st = ipc.new_state()
+    rs = ipc.run(CDY, [ipv], st)
+    truths = [r for r in rs if r.status == 'ok' and r.ret is not None and r.state.env.const_of(r.ret) == 1]
+    und = [r for r in rs if r.status == 'ok' and (r.ret is None or r.state.env.const_of(r.ret) is None)]
+    if und or not truths:
+        # a single boolean expression: assume it true
+        truths = []
+        for r in rs:
+            if r.status == 'ok' and r.ret is not None and r.ret[0] != 'c':
+                e2 = r.state.env.copy()
+                if e2.assume_eq(r.ret, 1):
+                    truths.append((r, e2))
+            elif r.status == 'ok' and r.ret is not None and r.state.env.const_of(r.ret) == 1:
+                truths.append((r, r.state.env))
+    else:
+        truths = [(r, r.state.env) for r in truths]
+    if not truths:
+        chk.error('C01.11: can_dynarec has no accepting path')
+        return
+    for i, (r, env) in enumerate(truths):
+        seg_short(env, ipv, 'block start accepted by can_dynarec', 'first:%d' % i)
+    # (b) later iterations: index after the loop's own exit tests
+    snaps = []
+
+    def oc(st_, callee, args, site):
+        if callee == SEG:
+            snaps.append((args[1], st_.env.copy()))
+    ip = absint.Interp(facts, opaque=['decoder::decode', 'emitter::x86_64::Emitter::encode_op', SEG,
+                                      'emitter::x86_64::Emitter::encode_epilogue', 'cache::CodeCache::insert_code_block',
+                                      'decoder::ops::Op::is_block_end',
+                                      'cache::linux::ExecutableMemory::make_writable',
+                                      'cache::linux::ExecutableMemory::make_executable',
+                                      'cache::linux::ExecutableMemory::get_memory_area_mut'],
+                       loop_mode='havoc', trust_asserts=('overflow', 'bounds', 'slice_index'))
+    ip.on_call = oc
+    st = ip.new_state()
+    cache = ip.arg_object(st, 'cache')
+    st.env.assume(ipv, AV(64, 0, 0x7fff))
+    ip.run(TCB, [cache, S(0, 'code'), ipv, S(0, 'mem')], st)
+    ip.on_call = None
+    later = 0
+    seen = set()
+    for idx, env in snaps:
+        if idx == ipv:
+            continue
+        same = any(k == 'eq' and ((t == O(1, 'ne', idx, ipv) and v == 0) or (t == O(1, 'eq', idx, ipv) and v == 1))
+                   for k, t, v in env.log)
+        if same:
+            continue            # index == ip: covered by (a)
+        sig = (idx, tuple(env.log))
+        if sig in seen:
+            continue
+        seen.add(sig)
+        later += 1
+        seg_short(env, idx, 'index of a later loop iteration', 'later:%d' % later)
+    if not later:
+        chk.error('C01.11: no later-iteration call of get_executable_memory_segment found in translate_code_block')
